@@ -27,10 +27,13 @@ type redCase struct {
 	// Prev is the case the same worker checked immediately before: replays run it first, so that a violation that needs
 	// state left behind by the previous redaction (a reused scratch buffer) reproduces
 	Prev *redCase `json:",omitempty"`
+	// Subst replaces the value of top-level keys (raw JSON text) after the event was laid out: null and other kinds of
+	// value under keys the redaction algorithm keeps
+	Subst map[string]string `json:",omitempty"`
 }
 
 func (c redCase) key() string {
-	return fmt.Sprintf("%s|%s|%s|%s|%v|%v", c.Version, c.Type, harness.J(c.Content), harness.J(c.Extra), c.NoSK, c.Zero)
+	return fmt.Sprintf("%s|%s|%s|%s|%v|%v", c.Version, c.Type, harness.J(c.Content), harness.J(c.Extra)+harness.J(c.Subst), c.NoSK, c.Zero)
 }
 
 var k3 = evgen.NewKey("c.org", "ed25519:3", 3)
@@ -65,6 +68,25 @@ func (c redCase) event() []byte {
 		e.Auth = []string{"$" + strings.Repeat("q", 43)}
 	}
 	js := e.JSON(c.Version)
+	if len(c.Subst) > 0 {
+		v := evgen.MustParse(js)
+		for k, raw := range c.Subst {
+			nv := &refjson.Value{Kind: refjson.Object}
+			done := false
+			for _, m := range v.Members {
+				if m.Key == k {
+					m.Val = evgen.MustParse([]byte(raw))
+					done = true
+				}
+				nv.Members = append(nv.Members, m)
+			}
+			if !done {
+				nv.Members = append(nv.Members, refjson.Member{Key: k, Val: evgen.MustParse([]byte(raw))})
+			}
+			v = nv
+		}
+		js = refjson.Emit(nil, v, true)
+	}
 	return evgen.SignEvent(c.Version, js, k1, k2)
 }
 
@@ -145,6 +167,11 @@ func check(r *harness.Run, c redCase) error {
 	// PDU.Redact agrees, keeps ID (hashed-ID versions) and identity fields
 	var pdu gmsl.PDU
 	if p, msg := harness.Try(func() { pdu, err = ver.NewEventFromTrustedJSON(in, false) }); p || err != nil {
+		if !p && len(c.Subst) > 0 {
+			// a value of the wrong kind under a typed key: the parser may refuse it; redaction of the JSON was judged above
+			r.Count("subst_refused_by_trusted_parser", 1)
+			return nil
+		}
 		return fmt.Errorf("trusted parse fails: %v %s", err, msg)
 	}
 	idBefore := pdu.EventID()
@@ -212,7 +239,7 @@ func check(r *harness.Run, c redCase) error {
 func main() { harness.Main("C05", "model_checking", run) }
 
 func run(r *harness.Run) {
-	r.Rule("every protected event type + 2 unprotected types x every subset of <= K content keys from the union of all versions' keep-lists plus junk/nested keys (each with a value from a typed menu incl. 2^53-1, null, nested objects/arrays, strings needing escapes) x all 16 room versions; and every subset of 8 extra top-level keys per type; depth 0 / origin_server_ts 0 variants. Oracle: value equality with refredact (spec tables), keep-list membership, idempotence, identity fields and hashed event ID (vs refevent) unchanged, PDU.Redact agreement (on a trusted parse, and on an untrusted parse that was co-signed first), all signatures still verify (real VerifyJSON). Non-trivial = distinct case where redaction both kept and removed content.")
+	r.Rule("every protected event type + 2 unprotected types x every subset of <= K content keys from the union of all versions' keep-lists plus junk/nested keys (each with a value from a typed menu incl. 2^53-1, null, nested objects/arrays, strings needing escapes) x all 16 room versions; and every subset of 8 extra top-level keys per type; depth 0 / origin_server_ts 0 variants; null / false / 0 / empty string / [] / {} under each of 12 top-level keys. Oracle: value equality with refredact (spec tables), keep-list membership, idempotence, identity fields and hashed event ID (vs refevent) unchanged, PDU.Redact agreement (on a trusted parse, and on an untrusted parse that was co-signed first), all signatures still verify (real VerifyJSON). Non-trivial = distinct case where redaction both kept and removed content.")
 	r.Assume("ed25519 / sha256 trusted", "float-valued and >2^53 numbers in content are outside the property's alphabet")
 	r.OnReplay("red", func(raw json.RawMessage) error {
 		var c redCase
@@ -338,6 +365,26 @@ func run(r *harness.Run) {
 			report(c, check(r, c))
 		}
 	})
+	// values of another kind (null first) under every top-level key that some version's algorithm keeps: "kept with its value
+	// unchanged" includes null, false, 0, "", [] and {}
+	var sjobs []redCase
+	for _, v := range vers {
+		for _, t := range []string{"m.room.member", "m.room.message"} {
+			for _, k := range []string{"state_key", "origin", "membership", "prev_state", "redacts", "depth", "origin_server_ts", "prev_events", "auth_events", "hashes", "unsigned", "age_ts"} {
+				for _, raw := range []string{`null`, `false`, `0`, `""`, `[]`, `{}`} {
+					sjobs = append(sjobs, redCase{Version: v, Type: t, Content: map[string]string{"membership": `"join"`, "junk": `1`}, Subst: map[string]string{k: raw}})
+				}
+			}
+			sjobs = append(sjobs, redCase{Version: v, Type: t, Content: map[string]string{"membership": `"join"`}, Subst: map[string]string{"state_key": `null`, "origin": `null`, "membership": `null`, "prev_state": `null`, "redacts": `null`}})
+		}
+	}
+	r.Parallel(len(sjobs), func(i int) {
+		c := sjobs[i]
+		if err := check(r, c); err != nil {
+			r.Violation(fmt.Sprintf("red-subst:%s:%s:%s", c.Version, c.Type, harness.J(c.Subst)), err.Error(), "red", c)
+		}
+	})
+	r.Count("substituted_top_level_values", int64(len(sjobs)))
 	r.Count("content_subsets", int64(len(subsets)))
 	r.Sample("red", redCase{Version: "11", Type: "m.room.member", Content: map[string]string{"membership": `"invite"`, "third_party_invite": contentKeys[2][1], "displayname": `"d"`}})
 	r.Sample("red", redCase{Version: "6", Type: "m.room.aliases", Content: map[string]string{"aliases": `["#a:a.org"]`}})
